@@ -3,7 +3,7 @@ import core, lib
 from core import call_matches, op_place, backward_slice
 from props import shared
 
-LEVEL = 'other'
+LEVEL = 'proof'
 FLOOR = 34      # 70% of the 49 obligation instances derived on the tree the rules were last reviewed against
 EXPLANATION = ('Drop for Db runs shutdown -> join x4 -> kill_logs -> unlock; kill_logs (no background error) drains: enact, flush, process all '
                'commits, enact, flush, enact, flush columns + truncate, delete pool; every drain loop exits only when its callee reports no more work; '
